@@ -171,3 +171,24 @@ def sany(path):
 
 def cleanup_workroot():
     shutil.rmtree(WORKROOT, ignore_errors=True)
+
+
+def run_tlaps(module, theorems, timeout_s=600):
+    """check a TLAPS proof module in a private copy (tlapm writes its cache next to the module); returns a summary dict"""
+    import re
+    import shutil
+    import time
+    wd = workdir()
+    try:
+        shutil.copy(os.path.join(SPEC, module), wd)
+        t0 = time.time()
+        r = subprocess.run(["timeout", str(timeout_s), "tlapm", "--cleanfp", "--toolbox", "0", "0", module], capture_output=True, text=True, cwd=wd)
+        txt = r.stdout + r.stderr
+        mm = re.search(r"All (\d+) obligations? proved", txt)
+        total = int(mm.group(1)) if mm else 0
+        failed = txt.count("@!!status:failed")
+        if r.returncode != 0 or not mm or failed:
+            raise MachineryError("tlapm did not prove all obligations of %s: %s" % (module, txt[-800:]))
+        return {"module": module, "obligations": total, "proved": total, "failed": failed, "wall_s": round(time.time() - t0, 1), "theorems": list(theorems)}
+    finally:
+        shutil.rmtree(wd, ignore_errors=True)
